@@ -95,6 +95,9 @@ func genList(rng *rand.Rand, n int, prefix, att, side, mode string, k *int64) []
 				s.RW = rwClear
 			}
 		}
+		if s.RW == rwAnnotate || s.RW == rwInject {
+			s.Pad = []int{0, 0, 40, 200, 256, 257, 300, 2000, 70000}[rng.Intn(9)]
+		}
 		out = append(out, s)
 	}
 	return out
